@@ -51,19 +51,19 @@ def fwd(name, callee_kind, world, args, props):
             P(f'  ensures [C18.{name}.failed_check_leaves_nothing]')
             P(f'    readable(old(w).fs, {C}) && !sri_matches(sri@, bytes_at(old(w).fs, {C})) ==> r is Err && final(w).fs == old(w).fs')
         if base == 'copy':
-            P(f'  ensures [C18.{name}.ok_dest]')
+            P(f'  ensures [C18+C13.{name}.ok_dest]')
             P(f'    r is Ok ==> final(w).fs.files.contains_key(resolve(old(w).fs, to@)) && final(w).fs.files[resolve(old(w).fs, to@)] == bytes_at(old(w).fs, {C}) && r->Ok_0 == bytes_at(old(w).fs, {C}).len()')
             P(f'  ensures [C15.{name}.frame]')
             P(f'    same_except(old(w).fs, final(w).fs, resolve(old(w).fs, to@)) && final(w).fs.dirs == old(w).fs.dirs')
             P(f'  ensures [C18.{name}.missing_is_io_error]')
             P(f'    !readable(old(w).fs, {C}) ==> r is Err && r->Err_0 is IoError && final(w).fs == old(w).fs')
         elif base == 'reflink':
-            P(f'  ensures [C18.{name}.ok_dest]')
+            P(f'  ensures [C18+C13.{name}.ok_dest]')
             P(f'    r is Ok ==> readable(old(w).fs, {C}) && final(w).fs == (Fs {{ files: old(w).fs.files.insert(to@, bytes_at(old(w).fs, {C})), ..old(w).fs }})')
             P(f'  ensures [C15+C18.{name}.err_nothing]')
             P(f'    r is Err ==> final(w).fs == old(w).fs')
         elif base == 'hard_link':
-            P(f'  ensures [C18.{name}.ok_dest]')
+            P(f'  ensures [C18+C13.{name}.ok_dest]')
             P(f'    r is Ok ==> old(w).fs.files.contains_key({C}) && final(w).fs == (Fs {{ files: old(w).fs.files.insert(to@, old(w).fs.files[{C}]), ..old(w).fs }})')
             P(f'  ensures [C15+C18.{name}.err_nothing]')
             P(f'    r is Err ==> final(w).fs == old(w).fs')
@@ -111,17 +111,17 @@ def keyed(name, kind, world, props):
                 P(f'  ensures [C18.{name}.failed_check_leaves_nothing]')
                 P(f'    {IOK} && {E} is Some && readable(old(w).fs, {C}) && !sri_matches({E}->Some_0.integrity@, bytes_at(old(w).fs, {C})) ==> r is Err && final(w).fs == old(w).fs')
             if base == 'copy':
-                P(f'  ensures [C18.{name}.ok_dest]')
+                P(f'  ensures [C18+C13.{name}.ok_dest]')
                 P(f'    {IOK} && r is Ok ==> {E} is Some && final(w).fs.files.contains_key(resolve(old(w).fs, to@)) && final(w).fs.files[resolve(old(w).fs, to@)] == bytes_at(old(w).fs, {C}) && r->Ok_0 == bytes_at(old(w).fs, {C}).len()')
                 P(f'  ensures [C15.{name}.frame]')
                 P(f'    same_except(old(w).fs, final(w).fs, resolve(old(w).fs, to@)) && final(w).fs.dirs == old(w).fs.dirs')
             elif base == 'reflink':
-                P(f'  ensures [C18.{name}.ok_dest]')
+                P(f'  ensures [C18+C13.{name}.ok_dest]')
                 P(f'    {IOK} && r is Ok ==> {E} is Some && final(w).fs == (Fs {{ files: old(w).fs.files.insert(to@, bytes_at(old(w).fs, {C})), ..old(w).fs }})')
                 P(f'  ensures [C15+C18.{name}.err_nothing]')
                 P(f'    r is Err ==> final(w).fs == old(w).fs')
             elif base == 'hard_link':
-                P(f'  ensures [C18.{name}.ok_dest]')
+                P(f'  ensures [C18+C13.{name}.ok_dest]')
                 P(f'    {IOK} && r is Ok ==> {E} is Some && old(w).fs.files.contains_key({C}) && final(w).fs == (Fs {{ files: old(w).fs.files.insert(to@, old(w).fs.files[{C}]), ..old(w).fs }})')
                 P(f'  ensures [C15+C18.{name}.err_nothing]')
                 P(f'    r is Err ==> final(w).fs == old(w).fs')
